@@ -50,6 +50,11 @@ def job_spec(rng: random.Random, i: int, fail: bool) -> Dict[str, Any]:
         return {"nodes": [{"processor": "slice:FloatMultiplyOperation:FloatDataCollection", "parameters": {"factor": f1}},
                           {"processor": "slice:FloatCollectValueProbe:FloatDataCollection", "context_key": f"probe_{i}"}],
                 "value": "empty-collection", "ctx": {f"in_{i}": float(i) + add}, "fail": False}
+    if not fail and i % 7 == 2:
+        # FEATURE INTERACTION: the payload context already carries the CALLER's own "job_id" and the pipeline works on that key
+        # (renames it away); the Future still completes with the direct result plus the queue's job-id annotation
+        return {"nodes": nodes + [{"processor": f"rename:job_id:source_job_{i}"}], "value": float(rng.randint(1, 20)),
+                "ctx": {f"in_{i}": float(i), "job_id": f"caller-{i}"}, "fail": False}
     if not fail and i % 5 == 3:
         # a context-only job: no data goes in, none comes out (NoDataType), only the context is worked on
         return {"nodes": [{"processor": f"rename:in_{i}:out_{i}"}], "value": None, "ctx": {f"in_{i}": float(i) + add}, "fail": False}
@@ -84,6 +89,8 @@ def run_batch_real(params: Dict[str, Any]) -> Dict[str, Any]:
     seq = itertools.count()
     widx: Dict[int, int] = {}
 
+    known_ids: set = set()
+
     class LoggingDeque(collections.deque):
         def append(self, msg):
             md = msg.metadata or {}
@@ -91,8 +98,8 @@ def run_batch_real(params: Dict[str, Any]) -> Dict[str, Any]:
                 log.append((next(seq), "cfg", md.get("job_id"), None, None))
             else:
                 jid = md.get("job_id") or (msg.context.get_value("job_id") if msg.context is not None else None)
-                if jid is None:          # a Pipeline's own node-output publish, not master/worker traffic
-                    return super().append(msg)
+                if jid is None or jid not in known_ids:          # a Pipeline's own node-output publish (its context may hold the
+                    return super().append(msg)                   # CALLER's own "job_id" key), not master/worker traffic
                 log.append((next(seq), "status", jid, widx.get(threading.get_ident()), "error" if md.get("error") is not None else "result"))
             return super().append(msg)
 
@@ -140,6 +147,7 @@ def run_batch_real(params: Dict[str, Any]) -> Dict[str, Any]:
             registered: List[tuple] = []
 
             def __setitem__(self, k, v):
+                known_ids.add(k)
                 _RecDict.registered.append((k, v))
                 return super().__setitem__(k, v)
         _RecDict.registered = []
